@@ -30,6 +30,7 @@ func propC03() *Property {
 			{ID: "C03.R6", Title: "cache key completeness; no budget-dependent outcome cached", Floor: 6, Run: c03R6},
 			{ID: "C03.R7", Title: "status and header recognisers see whole lines only", Floor: 3, Run: wholeLines},
 			{ID: "C03.R8", Title: "concurrent fetches are shared only between identical URLs", Floor: 1, Run: c03R8},
+			{ID: "C03.R9", Title: "what FetchURL hands out is the (document, source, error) bundle of the flight it joined — joiners included (same instances as C02.R5)", Floor: 2, Run: c02R5},
 		},
 	}
 }
